@@ -19,6 +19,24 @@ USERS = [None, 'daemon', 'nobody', 'www-data', '1', '65534', '12345', '0']
 GROUPS = [None, 'daemon', 'nogroup', 'www-data', '1', '65534', '54321', '0']
 
 
+def _dual_names():
+    """Names present in both passwd and group whose uid differs from the gid of the group of that name."""
+    out = []
+    for u in pwd.getpwall():
+        try:
+            g = grp.getgrnam(u.pw_name)
+        except KeyError:
+            continue
+        if g.gr_gid != u.pw_uid:
+            out.append(u.pw_name)
+    return sorted(out)[:3]
+
+
+DUAL = _dual_names()
+USERS = USERS + DUAL
+GROUPS = GROUPS + DUAL
+
+
 def uid_of(u):
     if u is None:
         return None
@@ -192,7 +210,10 @@ def run(tier):
              'pk_file_mode': r.choice(MODES + [None, None]), 'cert_file_mode': r.choice(MODES + [None, None]),
              'pk_file_user': r.choice(USERS), 'pk_file_group': r.choice(GROUPS),
              'cert_file_user': r.choice(USERS), 'cert_file_group': r.choice(GROUPS)}
-        # a key the daemon cannot read back would only matter with kp_reuse; root reads everything
+        if DUAL and i % 6 == 4:
+            # one name used as user and as group (its uid and the gid of the group of that name differ), in several orders
+            n1 = DUAL[i % len(DUAL)]
+            c.update({'pk_file_user': n1, 'pk_file_group': n1} if i % 12 == 4 else {'cert_file_user': n1, 'pk_file_group': n1, 'cert_file_group': r.choice(GROUPS), 'pk_file_user': r.choice(USERS)})
         cases.append(c)
     results = C.parallel(cases, run_case)
     for res in results:
